@@ -184,7 +184,7 @@ func sendOne(p packet, port int) {
 	c.SetWriteDeadline(time.Now().Add(20 * time.Second))
 	c.Write(p.raw)
 	// give the server a moment to read and react; read whatever it answers
-	c.SetReadDeadline(time.Now().Add(150 * time.Millisecond))
+	c.SetReadDeadline(time.Now().Add(40 * time.Millisecond))
 	io.Copy(io.Discard, c)
 	c.Close()
 }
@@ -202,7 +202,7 @@ func runServerSide(o *common.Opts, res *common.Result) {
 	if err != nil {
 		res.Fatal(o.Out, err)
 	}
-	n := 6
+	n := 4
 	depth := 6 << 20
 	if o.Thorough() {
 		n = 60
@@ -222,6 +222,21 @@ func runServerSide(o *common.Opts, res *common.Result) {
 	packets = append(packets, mkPacket("tcp", "empty-body", frame(nil)))
 	packets = append(packets, mkPacket("udp", "empty-body", frame(nil)))
 
+	if !o.Thorough() {
+		perKind := map[string]int{}
+		var kept []packet
+		for _, p := range packets {
+			k := p.Transport + "/" + p.Kind
+			if j := strings.Index(p.Kind, ":"); j > 0 {
+				k = p.Transport + "/" + p.Kind[:strings.LastIndex(p.Kind, ":")]
+			}
+			perKind[k]++
+			if perKind[k] <= 2 {
+				kept = append(kept, p)
+			}
+		}
+		packets = kept
+	}
 	port := srv.FreePort("127.0.0.1")
 	ch, err := startChild("child-server", port)
 	if err != nil {
@@ -233,21 +248,27 @@ func runServerSide(o *common.Opts, res *common.Result) {
 	}
 	settle := func(p packet) time.Duration {
 		if p.Len > 1<<20 {
-			return 8 * time.Second // stack growth to the 1 GB limit takes seconds
+			return 6 * time.Second // stack growth to the 1 GB limit takes seconds
 		}
-		return 700 * time.Millisecond // CheckPanic dumps the stack and flushes logs before os.Exit
+		return 400 * time.Millisecond // CheckPanic dumps the stack and flushes logs before os.Exit
 	}
 	// culprit search: each packet of the window alone against a fresh server
 	search := func(window []packet) {
-		for _, q := range window {
-			p2 := srv.FreePort("127.0.0.1")
-			c2, err := startChild("child-server", p2)
+		var c2 *child
+		var p2 int
+		fresh := func() {
+			p2 = srv.FreePort("127.0.0.1")
+			var err error
+			c2, err = startChild("child-server", p2)
 			if err != nil || !waitServer(p2) {
 				res.Fatal(o.Out, fmt.Errorf("server child did not restart"))
 			}
+		}
+		fresh()
+		for _, q := range window {
 			sendOne(q, p2)
 			dead := false
-			for t := time.Now(); time.Since(t) < settle(q); time.Sleep(50 * time.Millisecond) {
+			for t := time.Now(); time.Since(t) < settle(q); time.Sleep(30 * time.Millisecond) {
 				if c2.exited() {
 					dead = true
 					break
@@ -262,9 +283,10 @@ func runServerSide(o *common.Opts, res *common.Result) {
 				res.Histogram["server-death:"+q.Transport+":"+reason]++
 				res.Violate(common.Violation{Signature: "C05:server-killed-" + reason + ":" + q.Transport, What: "a single " + q.Transport + " packet terminated the server process: " + lastLine(c2.out.String()),
 					Case: common.Case{Stream: "net", Op: q, Impl: reason}})
+				fresh()
 			}
-			c2.kill()
 		}
+		c2.kill()
 	}
 	var window []packet
 	flush := func(final bool) {
@@ -392,7 +414,7 @@ func runClientSide(o *common.Opts, res *common.Result) {
 						// a process killed by stack exhaustion dies seconds later: hand out nothing
 						// else meanwhile so that the culprit is unambiguous
 						mu.Lock()
-						time.Sleep(8 * time.Second)
+						time.Sleep(6 * time.Second)
 						mu.Unlock()
 					}
 				}
@@ -463,7 +485,7 @@ func childClient(port int) {
 	comm := tars.NewCommunicator()
 	p := &prx{}
 	comm.StringToProxy(fmt.Sprintf("App.Server.Obj@tcp -h 127.0.0.1 -p %d -t 1000", port), p)
-	p.s.TarsSetTimeout(800)
+	p.s.TarsSetTimeout(200)
 	fails := 0
 	for i := 0; i < 100000 && fails < 50; i++ {
 		resp := new(requestf.ResponsePacket)
@@ -501,12 +523,26 @@ func main() {
 	if o.Replay != "" {
 		res.Note("network cases are replayed by re-running the generated stream with the same seed (packets are derived from -seed)")
 	}
+	// the two sides are independent: run them concurrently
+	res2 := common.NewResult("C05", o)
+	done := make(chan struct{})
+	go func() { runClientSide(o, res2); close(done) }()
 	runServerSide(o, res)
-	runClientSide(o, res)
+	<-done
+	res.DistinctNontrivial = 0
+	res.Write(o.Out) // fixes the distinct count of the server side
+	if r1, err := common.LoadResult(o.Out); err == nil {
+		res2.Write(o.Out + ".client")
+		if r2, err := common.LoadResult(o.Out + ".client"); err == nil {
+			r1.Merge(r2)
+			os.Remove(o.Out + ".client")
+			res = r1
+		}
+	}
 	res.Rule = "a real server (TCP+UDP adapters, echo dispatcher) in a child process receives one hostile packet at a time: mutated/truncated/length-corrupted RequestPacket encodings, " +
 		"random bytes, deep nesting bombs, datagrams shorter than the header; liveness = a fresh connection gets tars_ping answered. A real client in a child process calls a fake server " +
 		"that answers with hostile ResponsePacket encodings; non-trivial = distinct (transport, kind, bytes)"
-	if err := res.Write(o.Out); err != nil {
+	if err := res.WriteRaw(o.Out); err != nil {
 		panic(err)
 	}
 }
